@@ -22,7 +22,7 @@ use crate::values::types::int::int_or_big::StarlarkIntRef;
 
 /// Slice bounds are clamped to the sequence, so an integer which does not fit in `i32`
 /// behaves like the nearest `i32` instead of being rejected.
-fn unpack_slice_bound(v: Value) -> crate::Result<i32> {
+pub(crate) fn unpack_slice_bound(v: Value) -> crate::Result<i32> {
     match StarlarkIntRef::unpack(v) {
         Some(i) if i.to_i32().is_none() => Ok(if i < 0 { i32::MIN } else { i32::MAX }),
         _ => i32::unpack_value_err(v),
